@@ -261,7 +261,8 @@ def step(db, o):
         ps = [p for p in db if hit(o[1], o[2], p)]
         return db, ("point", ps[0] if ps else None)
     if k == "select":
-        if o[1] is None:
+        import dbmodel as _M
+        if o[1] is None or not all(_M.selkey_valid(key) for key in o[1]):
             return db, ("raise", "ValueError")
 
         def proj(p, key):
